@@ -111,7 +111,7 @@ func (c *c04) Key() string {
 }
 
 func (c *c04) snapshot() (string, string) {
-	return c.W.V.Dump(pfcp.DumpOpt{NoTrans: true}), c.W.D.Dump()
+	return c.W.V.Dump(pfcp.DumpOpt{NoTrans: true, NoExtra: true}), c.W.D.Dump()
 }
 
 // ownerPeer: the peer a request for SEID s is sent from (its owner if live, else A).
